@@ -24,6 +24,9 @@ RULE = ('inputs = 4 seed requests x every applicable single mutation operator (r
         'input delivered whole, truncated at every offset (first 300 bytes, then every 4096) followed by disconnect, and cut into two reads at every offset below 200; '
         'non-trivial = every mutated or truncated input; distinct = distinct byte string')
 ASSUMPTIONS = [
+    '"the event loop keeps running" includes: handling one short input does not keep the loop busy for more than %.1f s of CPU time (thread CPU '
+    'clock, second identical delivery, so first-use costs and scheduling do not count); ladders of malformed over-long inputs '
+    '(run lengths 8..4096) are left at the first length that stalls' % 0.5,
     '"waits for more data" (no response, no close) is accepted for every input, as the statement allows',
     'only operators tagged malformed-for-sure forbid a 2xx/3xx answer',
     'the request handler never fails, so a 4xx/5xx answer means the HTTP component rejected the message itself',
@@ -184,6 +187,32 @@ def inputs(tier):
                     yield ('%s|%s+%s' % (sname, a, b), build(r), sa or sb)
 
 
+LADDER = (8, 16, 20, 22, 24, 26, 28, 32, 64, 256, 4096)
+STALL_CPU_SECONDS = 0.5      # CPU time (not wall time) one delivery of a short input may cost; measured baseline: ~1 ms
+
+
+def ladders():
+    """name -> function(n) -> request bytes: inputs that are both malformed and over-long, of growing length n.
+    The cost of rejecting (or accepting) them must stay proportionate: the loop serves nobody else meanwhile."""
+    def req(line=b'GET /p HTTP/1.1', headers=(), body=b''):
+        return build([line, [b'Host: example.test'] + list(headers), body])
+    return {
+        'header-name-run-then-bad-char': lambda n: req(headers=[b'X-' + b'A' * n + b'@: 1']),
+        'header-name-dashed-run-then-bad-char': lambda n: req(headers=[b'a-' * n + b'@: 1']),
+        'header-name-run-then-space': lambda n: req(headers=[b'A' * n + b' : 1']),
+        'header-name-run-no-colon': lambda n: req(headers=[b'A' * n]),
+        'header-value-run-then-control-char': lambda n: req(headers=[b'X-V: ' + b'a' * n + b'\x01']),
+        'header-value-spaces-run': lambda n: req(headers=[b'X-V:' + b' ' * n + b'\x01']),
+        'method-run-then-bad-char': lambda n: req(line=b'A' * n + b'@ /p HTTP/1.1'),
+        'target-run-then-bad-escape': lambda n: req(line=b'GET /' + b'a' * n + b'\\x HTTP/1.1'),
+        'target-percent-run': lambda n: req(line=b'GET /' + b'%2' * n + b' HTTP/1.1'),
+        'version-run': lambda n: req(line=b'GET /p HTTP/' + b'1' * n + b'.x'),
+        'content-length-run': lambda n: req(line=b'POST /p HTTP/1.1', headers=[b'Content-Length: ' + b'1' * n + b'x']),
+        'chunk-size-run': lambda n: req(line=b'POST /p HTTP/1.1', headers=[b'Transfer-Encoding: chunked'], body=b'f' * n + b'z\r\nhello\r\n0\r\n\r\n'),
+        'folded-lines-run': lambda n: req(headers=[b'X-F: a' + b'\r\n b' * n + b'\x01']),
+    }
+
+
 def truncations(data):
     n = len(data)
     pos = list(range(1, min(n, 300)))
@@ -242,16 +271,29 @@ def parse_responses(data):
 
 
 def run_input(data, cut=None, rest=False):
+    obs = run_input_once(data, cut, rest)
+    if obs.get('cpu', 0) > STALL_CPU_SECONDS / 4:
+        # first-use costs (lazy imports, regular expressions compiled on first use) are not stalls: only what a repeated,
+        # identical delivery still costs counts
+        again = run_input_once(data, cut, rest)
+        obs['cpu'] = min(obs['cpu'], again.get('cpu', 0))
+    return obs
+
+
+def run_input_once(data, cut=None, rest=False):
     """deliver data (or its prefix of length cut; with rest=True the remainder follows as a second read), probe the loop,
     disconnect; return observation dict"""
+    import time
     w = hh.HttpWorld(controllers=(Echo(),), dispatcher=False)
     obs = {}
     try:
         sock = w.new_sock()
         Echo.sentinel = 0
+        t0 = time.thread_time()
         w.feed(sock, data if cut is None else data[:cut])
         if rest and cut is not None and sock not in w.closed:
             w.feed(sock, data[cut:])
+        obs['cpu'] = time.thread_time() - t0
         w.root.fire(Event.create('sentinel'), 'web')
         w.settle()
         obs['sentinel'] = Echo.sentinel
@@ -281,6 +323,9 @@ def judge(name, data, sure, obs, truncated):
         cls = 'truncated'
     if obs['crashed']:
         bad.append(('crash:' + cls, 'an exception escaped the event loop: %s' % obs['crashed']))
+    if obs.get('cpu', 0) > STALL_CPU_SECONDS * max(1, len(data) // 65536):
+        bad.append(('stall:' + cls, 'handling %d bytes kept the event loop busy for %.2f s of CPU time (limit %.2f s; ordinary inputs cost about 1 ms)'
+                    % (len(data), obs['cpu'], STALL_CPU_SECONDS)))
     if obs['sentinel'] != 1:
         bad.append(('loop-dead:' + cls, 'a later event was dispatched %d times' % obs['sentinel']))
     resps, err = parse_responses(obs['written'])
@@ -344,6 +389,24 @@ def _work(part, nparts, payload):
                     {'name': name, 'cut': cut, 'rest': rest, 'tier': tier})
             if cut is None and len(st.samples) < 2 and 'clen' in name:
                 st.sample({'input': name, 'bytes': data[:200].decode('latin1'), 'written': obs['written'][:120].decode('latin1'), 'closed': obs['closed']})
+    # ladders: malformed AND over-long inputs of growing length; a ladder is left at the first length whose handling stalls the loop
+    for idx, (lname, fn) in enumerate(sorted(ladders().items())):
+        if idx % nparts != part:
+            continue
+        for n in LADDER:
+            data = fn(n)
+            name = 'ladder|%s' % lname
+            obs = run_input(data)
+            st.executions += 1
+            st.transitions += 3
+            st.interesting((name, n))
+            st.counters['ladder_inputs'] += 1
+            st.outcome((name, n, obs['written'][:40], obs['closed'], obs['requests'], tuple(obs['residue'])))
+            bad = judge(name, data, False, obs, False)
+            for kind, text in bad:
+                st.fail(kind, '%s [input %s, run length %d: %r...]' % (text, name, n, data[:90]), {'name': name, 'n': n, 'cut': None, 'tier': tier})
+            if any(k.startswith('stall') for k, _t in bad):
+                break
     return st
 
 
@@ -361,6 +424,14 @@ def run(tier, seed, workers):
 
 
 def replay(wj):
+    if wj['name'].startswith('ladder|'):
+        data = ladders()[wj['name'].split('|', 1)[1]](wj['n'])
+        obs = run_input(data)
+        bad = judge(wj['name'], data, False, obs, False)
+        text = 'input %s, run length %d: %r\nwritten: %r\nclosed=%r requests=%r residue=%r sentinel=%r crashed=%r cpu=%.3f s\n' % (
+            wj['name'], wj['n'], data[:300], obs['written'][:300], obs['closed'], obs['requests'], obs['residue'], obs['sentinel'], obs['crashed'], obs.get('cpu', 0))
+        text += ''.join('VIOLATED %s: %s\n' % b for b in bad) or 'all clauses hold\n'
+        return (not bad), text
     for name, data, sure in inputs(wj.get('tier', 'quick')):
         if name == wj['name']:
             obs = run_input(data, wj['cut'], wj.get('rest', False))
